@@ -2,6 +2,7 @@ import Bandit.Proofs.Total
 import Bandit.Proofs.Total2
 import Bandit.Proofs.Nosec
 import Props.C14
+import Bandit.Fast
 /-!
 # C06 — No built-in check crashes on valid Python
 
@@ -821,5 +822,16 @@ example : ¬ TreeShapeOK (.mk "Module".toList none [] [("body".toList, true,
 example (t : BlTables) (keep : Str → Bool) (nm : NosecMap) (lines : List Str) :
     crashesOf (scanFile (testSet Gen.pluginDefaults "m.py".toList t keep) ⟨sampleTree, nm, lines⟩) = [] :=
   scan_no_crash _ _ t keep _ (show TreeShapeOK sampleTree by decide +kernel) (by decide +kernel)
+
+/-- The native driver does not execute `scanFile` literally (that erases the whole ancestor chain once per check per node — quadratic) but
+`scanFileFast`, which erases the tree once and walks both trees in step.  It is the same function: every theorem about `scanFile`
+(this file, C01, C02, C05, C10, C12 …) is a theorem about what the correspondence check runs. -/
+theorem driver_scan_is_model (checks : List Check) (inp : FileInput) : scanFileFast checks inp = scanFile checks inp :=
+  scanFileFast_eq checks inp
+
+theorem scan_no_crash_driver (pc : PluginCfg) (fileName : Str) (t : BlTables) (keep : Str → Bool) (inp : FileInput)
+    (hs : TreeShapeOK inp.root) (hc : configOK pc = true) :
+    crashesOf (scanFileFast (testSet pc fileName t keep) inp) = [] := by
+  rw [driver_scan_is_model]; exact scan_no_crash pc fileName t keep inp hs hc
 
 end Props.C06
